@@ -5,6 +5,7 @@ package grpcsrv
 import (
 	"bytes"
 	"context"
+	"errors"
 	"fmt"
 	"io"
 	"math/rand"
@@ -21,11 +22,11 @@ import (
 	"google.golang.org/grpc/metadata"
 	"google.golang.org/grpc/test/bufconn"
 
-	pb "github.com/godaddy/asherah/server/go/api"
 	"github.com/godaddy/asherah/go/appencryption"
 	"github.com/godaddy/asherah/go/appencryption/pkg/crypto/aead"
 	"github.com/godaddy/asherah/go/appencryption/pkg/kms"
 	"github.com/godaddy/asherah/go/appencryption/pkg/persistence"
+	pb "github.com/godaddy/asherah/server/go/api"
 	"github.com/godaddy/asherah/server/go/pkg/server"
 
 	"verif/harness/ev"
@@ -340,7 +341,7 @@ func makeMaterialPart(app *server.AppEncryption, own string) *material {
 
 func TestC19(t *testing.T) {
 	r := ev.Start("C19", "exploration")
-	r.Rule("(1) every request sequence up to length L over {get-session valid / empty id, encrypt, decrypt genuine / foreign-partition / bit-flipped / structurally empty record (4 shapes), empty request}, each followed by end-of-stream, is played through AppEncryption.Session (built by NewAppEncryption from an Options value: memory metastore + static KMS, once without and once with the shared session cache of 2 sessions) on an in-process stream; a reference protocol automaton {uninitialised, initialised, rejected-get-session} gives the expected response class per request, responses are counted per request, panics are recovered per sequence. (2) seeded sequences of length 40 on 8 concurrent streams per round, spread over three partitions (so that cached sessions are shared between streams and evicted while in use), over real gRPC (bufconn) under the race detector, for both server variants, same automaton per stream. (3) 8 lock-step streams per round against a server whose SDK caches nothing while the metastore alternates between healthy and failing (all reads / only system-key reads / only intermediate-key reads, per round) with a different error text every time: each request gets exactly one response (the right answer or an error response). Distinct+non-trivial: distinct sequences that reached an initialised session.")
+	r.Rule("(1) every request sequence up to length L over {get-session valid / empty id, encrypt, decrypt genuine / foreign-partition / bit-flipped / structurally empty record (4 shapes), empty request}, each followed by end-of-stream, is played through AppEncryption.Session (built by NewAppEncryption from an Options value: memory metastore + static KMS, once without and once with the shared session cache of 2 sessions) on an in-process stream; a reference protocol automaton {uninitialised, initialised, rejected-get-session} gives the expected response class per request, responses are counted per request, panics are recovered per sequence. (2) seeded sequences of length 40 on 8 concurrent streams per round, spread over three partitions (so that cached sessions are shared between streams and evicted while in use), over real gRPC (bufconn) under the race detector, for both server variants, same automaton per stream. (3) 8 lock-step streams per round against a server whose SDK caches nothing while the metastore alternates between healthy and failing (all reads / only system-key reads / only intermediate-key reads, per round) with a different error text every time: each request gets exactly one response (the right answer or an error response). (4) a stream whose k-th Send fails while another stream of the same partition is open, followed by evictions: the healthy stream keeps working. Distinct+non-trivial: distinct sequences that reached an initialised session.")
 	r.Assume("the server binary's main() is not exercised, only pkg/server; a handler panic under a real grpc.Server kills the process (detected by the check script as a crash)")
 	n := 0
 	Ls := []int{ev.Pick(4, 5), ev.Pick(3, 4)}
@@ -392,6 +393,7 @@ func TestC19(t *testing.T) {
 		concurrentStreams(t, r, false)
 		concurrentStreams(t, r, true)
 		faultyBackendStreams(t, r)
+		brokenPeerScenario(r)
 	}
 	r.Finish(t)
 }
@@ -621,5 +623,137 @@ func faultyBackendRound(t *testing.T, r *ev.Run, round int) {
 			}()
 		}
 		wg.Wait()
+	}
+}
+
+// ---- a stream whose transport breaks while another stream of the same partition is open
+
+type ctlStream struct {
+	reqs       chan *pb.SessionRequest
+	resps      chan *pb.SessionResponse
+	failSendAt int // 1-based index of the Send that fails (0 = never)
+	sends      int
+}
+
+func newCtlStream(failSendAt int) *ctlStream {
+	return &ctlStream{reqs: make(chan *pb.SessionRequest), resps: make(chan *pb.SessionResponse, 16), failSendAt: failSendAt}
+}
+
+func (c *ctlStream) Recv() (*pb.SessionRequest, error) {
+	r, ok := <-c.reqs
+	if !ok {
+		return nil, io.EOF
+	}
+	return r, nil
+}
+func (c *ctlStream) Send(r *pb.SessionResponse) error {
+	c.sends++
+	if c.sends == c.failSendAt {
+		return errors.New("rpc error: code = Unavailable desc = transport is closing")
+	}
+	c.resps <- r
+	return nil
+}
+func (c *ctlStream) SetHeader(metadata.MD) error  { return nil }
+func (c *ctlStream) SendHeader(metadata.MD) error { return nil }
+func (c *ctlStream) SetTrailer(metadata.MD)       {}
+func (c *ctlStream) Context() context.Context     { return context.Background() }
+func (c *ctlStream) SendMsg(m any) error          { return nil }
+func (c *ctlStream) RecvMsg(m any) error          { return nil }
+
+// brokenPeerScenario: stream A of partition P stays open; stream B of the same partition loses its transport (its
+// k-th Send fails) and ends; streams of other partitions then push P out of the session cache; A must go on
+// encrypting and decrypting. Also without session caching and with B ending by a Recv error instead.
+func brokenPeerScenario(r *ev.Run) {
+	rounds := ev.Pick(6, 60)
+	for _, sess := range []bool{true, false} {
+		for _, how := range []string{"send-fails-1", "send-fails-2", "send-fails-3"} {
+			for round := 0; round < rounds && r.Violations() == 0; round++ {
+				name := fmt.Sprintf("broken-peer/session_caching=%v/%s", sess, how)
+				journal(fmt.Sprintf("C19 %s round %d", name, round))
+				app := newAppOpt(sess)
+				ask := func(c *ctlStream, req *pb.SessionRequest) *pb.SessionResponse {
+					c.reqs <- req
+					select {
+					case resp := <-c.resps:
+						return resp
+					case <-time.After(60 * time.Second):
+						return nil
+					}
+				}
+				a := newCtlStream(0)
+				aDone := make(chan error, 1)
+				go func() {
+					defer func() {
+						if p := recover(); p != nil {
+							aDone <- fmt.Errorf("PANIC: %v", p)
+						}
+					}()
+					aDone <- app.Session(a)
+				}()
+				if resp := ask(a, getSession("partP")); resp == nil || isErr(resp) {
+					r.Violation("c19-protocol:get-session(valid)", fmt.Sprintf("%s: stream A: get-session answered %v", name, resp), nil)
+					return
+				}
+				first := ask(a, encryptReq([]byte("first"))).GetEncryptResponse()
+				// stream B: same partition, its transport breaks at the k-th response
+				k := int(how[len(how)-1] - '0')
+				b := newCtlStream(k)
+				bDone := make(chan error, 1)
+				go func() {
+					defer func() {
+						if p := recover(); p != nil {
+							bDone <- fmt.Errorf("PANIC: %v", p)
+						}
+					}()
+					bDone <- app.Session(b)
+				}()
+				for i, req := range []*pb.SessionRequest{getSession("partP"), encryptReq([]byte("b1")), encryptReq([]byte("b2"))} {
+					if i+1 == k {
+						b.reqs <- req // no response will arrive: the Send fails and the handler ends the stream
+						break
+					}
+					ask(b, req)
+				}
+				select {
+				case err := <-bDone:
+					if err != nil && strings.HasPrefix(err.Error(), "PANIC") {
+						r.Violation("c19-handler-panic", fmt.Sprintf("%s: stream B: %v", name, err), nil)
+					}
+				case <-time.After(60 * time.Second):
+					r.Inconclusive(name + ": stream B did not end within 60 s after its Send failed")
+					return
+				}
+				// other partitions push P out of a session cache of 2
+				// (each of them is requested twice, so that whatever the eviction policy protects, P ends up the victim)
+				for _, p := range []string{"partQ", "partQ", "partR", "partR", "partS", "partS", "partQ", "partR"} {
+					c := newCtlStream(0)
+					done := make(chan error, 1)
+					go func() { done <- app.Session(c) }()
+					ask(c, getSession(p))
+					ask(c, encryptReq([]byte("x")))
+					close(c.reqs)
+					<-done
+				}
+				time.Sleep(20 * time.Millisecond) // lets asynchronous teardown run; decides nothing
+				r.Eval(1)
+				r.Count("broken_peer_rounds", 1)
+				r.Distinct(name)
+				resp := ask(a, encryptReq([]byte("second")))
+				if resp == nil || resp.GetEncryptResponse() == nil {
+					r.Violation("c19-protocol:encrypt", fmt.Sprintf("%s round %d: after another stream of the same partition lost its transport and the partition left the session cache, encrypt on the healthy stream answered %v", name, round, resp), map[string]any{"scenario": name})
+				}
+				if first != nil {
+					dr := ask(a, decryptReq(cloneDRR(first.DataRowRecord)))
+					if dr == nil || dr.GetDecryptResponse() == nil || string(dr.GetDecryptResponse().Data) != "first" {
+						r.Violation("c19-protocol:decrypt(genuine)", fmt.Sprintf("%s round %d: decrypt of the stream's own record on the healthy stream answered %v", name, round, dr), map[string]any{"scenario": name})
+					}
+				}
+				close(a.reqs)
+				if err := <-aDone; err != nil {
+					r.Violation("c19-stream-error", fmt.Sprintf("%s: stream A ended with %v", name, err), nil)
+				}
+			}
+		}
 	}
 }
